@@ -45,13 +45,16 @@ def _case(draw, tier):
              "dopen": draw(st.booleans()), "limit": limit, "step": step, "start": start, "limit_input": draw(st.booleans()), "step_input": draw(st.booleans()),
              "acc": False, "nested": False, "limit_off": 0, "entry": 0}
         if form == "selfsignal":
-            L["k"] = 2
+            L["k"] = draw(st.sampled_from([2, 3, 3, 4]))
         if form == "waitlast":
             L["k"] = draw(st.integers(3, 4))
         if form == "chat":
             L.update({"k": 1, "step_input": False, "limit": 2 * draw(st.integers(0, 4)), "start": 0, "step": 1})
         return {"part": "B", "loop": L, "order": draw(st.lists(st.integers(0, 9), min_size=10, max_size=10)), "sched": draw(st.lists(st.integers(0, 5), max_size=40)),
-                "cache_body": prob(draw, 0.4)}
+                "cache_body": prob(draw, 0.4),
+                # a side chain off the carried variable: ep(i) -> epoch = i // m (changes every m-th iteration only), cfgn(epoch) -> cfg,
+                # and snap(i) which WAITS for the data name `cfg` without taking it: its input changes every iteration, `cfg` does not
+                "datawait": draw(st.integers(2, 3)) if form != "chat" and prob(draw, 0.4) else None}
     topo = draw(gen.g1_nodes(3, 8, default_on_edge=0.15))
     n = len(topo)
     nsig = draw(st.integers(1, 3))
@@ -382,6 +385,15 @@ def _part_b(case, ev):
         # emitting body nodes are cached and the loop is run twice on the same runner: a cache hit must still emit
         gspec = {**gspec, "nodes": [({**n, "cache": True} if n["k"] == "func" and n.get("emit") else n) for n in gspec["nodes"]]}
         labels.add("cached_emitters_second_run")
+    side_outs = set()
+    if case.get("datawait"):
+        m_ = case["datawait"]
+        side = [{"k": "func", "name": "ep", "params": ["i"], "defaults": {}, "outs": ["epoch"], "expr": f"i // {m_}"},
+                {"k": "func", "name": "cfgn", "params": ["epoch"], "defaults": {}, "outs": ["cfg"], "expr": "('cfg', epoch)"},
+                {"k": "func", "name": "snap", "params": ["i"], "defaults": {}, "outs": ["snapv"], "wait_for": ["cfg"], "expr": "('snap', i)"}]
+        gspec = {**gspec, "nodes": gspec["nodes"] + side}
+        side_outs = {"epoch", "cfg", "snapv"}
+        labels.add("waiter_on_a_data_name_in_a_cycle")
     flat_nodes = gspec["nodes"]
     shared = {"sync": SyncRunner(cache=InMemoryCache()), "async": AsyncRunner(cache=InMemoryCache())}
     plan = [("sync", 0), ("async", 0)] + ([("sync", 1), ("async", 1)] if case.get("cache_body") else [])
@@ -402,8 +414,9 @@ def _part_b(case, ev):
         if out.status != "completed":
             raise Violation("c17.run_failed", f"[{tag}] {out.brief()} loop={J(L)}")
         monitor(tag, events, flat_nodes, with_steps=(runner == "async"), stats=stats)
-        if out.values != env:
-            diff = {k: (J(out.values.get(k, "<absent>")), J(env.get(k, "<absent>"))) for k in set(out.values) | set(env) if out.values.get(k, "<absent>") != env.get(k, "<absent>")}
+        got_vals = {k: v for k, v in out.values.items() if k not in side_outs}
+        if got_vals != env:
+            diff = {k: (J(got_vals.get(k, "<absent>")), J(env.get(k, "<absent>"))) for k in set(got_vals) | set(env) if got_vals.get(k, "<absent>") != env.get(k, "<absent>")}
             raise Violation("c17.loop_values", f"[{tag}] the signal-synchronised loop ended with (got, expected) {diff}; loop={J(L)}", stalled=any(isinstance(v, int) and v < env.get(k, 0) for k, v in out.values.items() if isinstance(env.get(k), int)))
         starts = {}
         for e in events:
